@@ -1780,8 +1780,12 @@ sec_compute(const rkey *k)
 /* ------------------------------------------------------------------ */
 /* Section KEYGEN */
 
-static const unsigned KG_SIZES_Q[] = { 512, 768, 1024, 1031 };
-static const unsigned KG_SIZES_T[] = { 512, 513, 768, 1024, 1031, 1536, 2048, 2049, 3072, 4096 };
+/* besides the sizes of the design, sizes whose prime lengths are 0 or 1 modulo
+   15 / 31, which select the other branches of mkprime()'s top-bit forcing:
+   558 (279 = 9*31), 560 (280 = 9*31+1), 1020 (510 = 34*15); 512 gives 256 = 17*15+1 */
+static const unsigned KG_SIZES_Q[] = { 512, 558, 560, 768, 1020, 1024, 1031 };
+static const unsigned KG_SIZES_T[] = { 512, 513, 558, 560, 620, 768, 1020, 1024, 1031, 1054,
+	1530, 1536, 2040, 2048, 2049, 3072, 4096 };
 static const uint32_t KG_EXPS[] = { 3, 65537, 0, 17, 0xFFFFFFFF };
 
 static void
